@@ -5,6 +5,8 @@ import RModel.Model.CaseModel
 import RModel.Model.RenamePlan
 import RModel.Gen.Acronyms
 import RModel.Gen.RenameTables
+import RModel.Model.Scope
+import RModel.Gen.Walker
 import Driver.Wire
 /- driver operations for the rename planner (C08); request format in harness/src/ops_renameplan.rs -/
 open B Fs Apply RenamePlan
@@ -44,28 +46,88 @@ def showConflict (c : Conflict) : String :=
 
 def finish (s : String) : String := s.trimAsciiEnd.toString
 
-def run (mode flags : String) (cwd : Path) (roots : List Path) (vmap : List VEntry) (t : Tree) : String :=
+/-- optional scope section of a request: unrestricted level, include / exclude patterns, and the ignore facts
+    `(kind, directory of the ignore file, path its pattern matches)` — gitignore matching is a parameter of the C09
+    scope model, supplied by the runner for the pattern class it generates -/
+structure ScopeInfo where
+  level : Nat
+  inc : List Bytes
+  exc : List Bytes
+  facts : List (Nat × Path × Path)
+
+def kindIdx : Scope.IgnKind → Nat
+  | .gitignore => 0 | .ignore => 1 | .rgignore => 2 | .rnignore => 3 | .gitExclude => 4
+
+def strictPre (a b : Path) : Bool := a.isPrefixOf b && decide (a.length < b.length)
+
+/-- what the walk of `root` yields (C09: `Scope.renameCandidate` with the generated walker table): the root itself and
+    every node below it that the walker reaches and the glob sets (matched relative to THIS root) let through -/
+def entriesScoped (si : ScopeInfo) (t : Tree) (root : Path) : List Entry :=
+  let site : Scope.Site :=
+    { gitAt := fun d => (lookup t (root ++ d ++ [Scope.gitName])).isSome,
+      ancGit := (t.any (fun e => e.1.getLast? == some Scope.gitName && strictPre e.1.dropLast root)),
+      ign := fun k p => si.facts.any (fun f => f.1 == kindIdx k && f.2.2 == root ++ p && root.isPrefixOf f.2.1),
+      ignAbove := fun k p => si.facts.any (fun f => f.1 == kindIdx k && f.2.2 == root ++ p && strictPre f.2.1 root),
+      ty := fun p => match lookup t (root ++ p) with
+        | some (.dir _) => .dir
+        | some (.link _) => .symlink
+        | _ => .file }
+  let req : Scope.Request :=
+    { level := si.level, site := site, gm := Glob.matchesD, globs := { includes := si.inc, excludes := si.exc } }
+  (t.filter (fun e => root.isPrefixOf e.1)).filterMap (fun e =>
+    let rel := e.1.drop root.length
+    let ft : Scope.FType := match e.2 with | .dir _ => .dir | .link _ => .symlink | .file _ _ => .file
+    if Scope.renameCandidate Gen.pipeline req { path := rel, ftype := ft } then some (e.1, ekindOf e.2) else none)
+
+def strs? (tag : String) : List String → Option (List Bytes × List String)
+  | t :: n :: rest =>
+    if t == tag then (Wire.nat? n).bind (fun k => Wire.many (fun fs => match fs with
+      | h :: r => (ofHex h).map (fun b => (b, r))
+      | [] => none) k rest)
+    else none
+  | _ => none
+
+def fact? : List String → Option ((Nat × Path × Path) × List String)
+  | k :: d :: p :: rest =>
+    match Wire.nat? k, Wire.path? d, Wire.path? p with
+    | some k, some d, some p => some ((k, d, p), rest)
+    | _, _, _ => none
+  | _ => none
+
+def scope? : List String → Option (Option ScopeInfo)
+  | [] => some none
+  | "S" :: l :: rest => do
+    let level ← Wire.nat? l
+    let (inc, r1) ← strs? "I" rest
+    let (exc, r2) ← strs? "X" r1
+    let (facts, r3) ← Wire.counted "G" fact? r2
+    if r3.isEmpty then some (some { level := level, inc := inc, exc := exc, facts := facts }) else none
+  | _ => none
+
+def run (mode flags : String) (cwd : Path) (roots : List Path) (vmap : List VEntry) (t : Tree)
+    (si : Option ScopeInfo) : String :=
+  let walk : Path → List Entry := match si with | some si => entriesScoped si t | none => entriesOf t
   let has (c : Char) : Bool := flags.toList.contains c
   let o : Opts := { renameFiles := has 'f', renameDirs := has 'd', coerce := has 'c', cwd := cwd }
   let r0 := roots.headD []
   match mode with
   | "search" =>
-    (match planWithSearch tables o vmap (entriesOf t r0) with
+    (match planWithSearch tables o vmap (walk r0) with
      | .ok rs => finish s!"ok {showRens rs}"
      | .error n => s!"refused {n}")
   | "conf" =>
-    let p := planRoot tables { o with withSearch := false } vmap (entriesOf t r0)
+    let p := planRoot tables { o with withSearch := false } vmap (walk r0)
     let cs := sortStrs (p.conflicts.map showConflict)
     let tail := if cs.isEmpty then "" else " | " ++ " ".intercalate cs
     finish (finish s!"ok {showRens p.renames}" ++ tail)
   | "scan" =>
-    (match planMulti tables o vmap (roots.map (entriesOf t)) with
+    (match planMulti tables o vmap (roots.map walk) with
      | .ok rs => finish s!"ok {showRens rs}"
      | .error n => s!"refused {n}")
   | "explain" =>
     -- model only: everything that is collected (before the conflict filter), over all roots
     let all := roots.flatMap (fun r =>
-      let c0 := collect tables o vmap (entriesOf t r)
+      let c0 := collect tables o vmap (walk r)
       c0.filter (fun x => !(x.path == o.cwd)))
     finish s!"ok {showRens all}"
   | "coerced" =>
@@ -77,14 +139,14 @@ def run (mode flags : String) (cwd : Path) (roots : List Path) (vmap : List VEnt
          | some v => o.coerce && (applyCoercion tables name v.key v.val).isSome
          | none => false)
       | none => false
-    let ps := (roots.flatMap (fun r => (entriesOf t r).filter hit)).map (fun e => hexOrDash (joinPath e.1))
+    let ps := (roots.flatMap (fun r => (walk r).filter hit)).map (fun e => hexOrDash (joinPath e.1))
     finish s!"ok {" ".intercalate (sortStrs ps)}"
   | "rename" | "renameroot" =>
-    (match planRenames tables o vmap t roots (mode == "renameroot") with
+    (match planRenamesWith tables o vmap walk roots (mode == "renameroot") with
      | .ok rs => finish s!"ok {showRens rs}"
      | .error n => s!"refused {n}")
   | "apply" | "applyroot" =>
-    (match planRenames tables o vmap t roots (mode == "applyroot") with
+    (match planRenamesWith tables o vmap walk roots (mode == "applyroot") with
      | .ok rs =>
        let r := Apply.applyPlan t { hunks := [], rens := rs }
        finish s!"{Wire.showOutcome r.outcome} {Wire.showTree r.tree}"
@@ -98,8 +160,11 @@ def dispatch : List String → Option String
       (match Wire.counted "V" ventry? r1 with
        | some (vmap, r2) =>
          (match Wire.tree? r2 with
-          | some (t, []) => some (run mode flags cwd roots vmap t)
-          | _ => some "bad-req")
+          | some (t, r3) =>
+            (match scope? r3 with
+             | some si => some (run mode flags cwd roots vmap t si)
+             | none => some "bad-req")
+          | none => some "bad-req")
        | none => some "bad-req")
     | _, _ => some "bad-req"
   | _ => none
